@@ -264,7 +264,54 @@ def check_history(case, ctx):
         ctx.nontrivial_case({"reads": case["reads"]})
 
 
+# ---------------------------------------------------------------- CLI, several adapter sources on one command line
+def multi_case(draw_tier=None):
+    from checks import c02
+
+    return c02.cli_case().map(lambda sc: dict(sc, sub="multi", glob=dict(sc["glob"], no_index=True)))
+
+
+def check_multi(sc, ctx):
+    """Every match row of the info file must be what the named adapter, with the parameters the documentation
+    gives it (own > file-wide > global), reports for that read - and that report must be genuine."""
+    from checks import c02
+
+    args, files = c02.render_cli(sc)
+    recs = [(f"r{i}x", s, None) for i, s in enumerate(sc["reads"])]
+    files["in.fasta"] = cli.fasta(recs)
+    args += ["--info-file", "info.tsv", "-o", "out.fasta", "in.fasta"]
+    r = cli.run(args, files)
+    if r.exit != 0:
+        raise Violation(f"cutadapt failed on a valid command line {args}: exit={r.exit} {r.errors} {r.tb}")
+    specs = {x["name"]: dict(x, via="class") for x in c02.effective_specs(sc)}
+    rows = [ln.split("\t") for ln in r.files["info.tsv"].decode().split("\n") if ln]
+    if len(rows) != len(recs):
+        raise Violation(f"info file has {len(rows)} rows for {len(recs)} reads ({args})", observed=rows)
+    ctx.label(f"multi:sources={len(sc['sources'])}")
+    nt = False
+    for (name, read, _), row in zip(recs, rows):
+        if row[1] == "-1":
+            continue
+        spec = specs.get(row[7])
+        if spec is None:
+            raise Violation(f"info file names adapter {row[7]!r}, which the command line {args} does not define",
+                            observed=row[:8])
+        a = cached_adapter(spec)
+        m = a.match_to(read)
+        got = [int(row[1]), int(row[2]), int(row[3])]
+        exp = None if m is None else [m.errors, m.rstart, m.rstop]
+        if got != exp:
+            raise Violation(
+                f"{args}: read {read!r} is reported as matching adapter {row[7]} ({spec['type']} {spec['seq']!r}) with "
+                f"[errors, start, end] = {got}; with its documented parameters e={spec['e']} o={spec['o']} "
+                f"indels={spec['indels']} that adapter reports {exp}", observed=got, expected=exp)
+        nt = validate_match(spec, read, m, a) or nt
+    if nt and len(specs) >= 2:
+        ctx.nontrivial_case({"args": args, "rows": [x[:8] for x in rows[:2]]})
+
+
 SUBS = {
+    "multi": Sub(strategy=lambda tier: multi_case(), check=check_multi),
     "history": Sub(strategy=lambda tier: history_case(), check=check_history),
     "match": Sub(strategy=lambda tier: match_case(), check=check_match, sweep=sweep_cases),
     "cli": Sub(strategy=lambda tier: cli_case(), check=check_cli),
@@ -277,12 +324,14 @@ def plan(tier):
         specs += [{"sub": "match", "kind": "hyp", "examples": 7000} for _ in range(7)]
         specs += [{"sub": "history", "kind": "hyp", "examples": 2500} for _ in range(3)]
         specs += [{"sub": "cli", "kind": "hyp", "examples": 600} for _ in range(2)]
+        specs += [{"sub": "multi", "kind": "hyp", "examples": 600} for _ in range(2)]
         specs += [{"sub": "match", "kind": "sweep", "amax": 3, "rmax": 4, "rates": [0, 0.5],
                    "part": i, "of": 6} for i in range(6)]
     else:
         specs += [{"sub": "match", "kind": "hyp", "examples": 250000} for _ in range(10)]
         specs += [{"sub": "history", "kind": "hyp", "examples": 80000} for _ in range(4)]
         specs += [{"sub": "cli", "kind": "hyp", "examples": 15000} for _ in range(4)]
+        specs += [{"sub": "multi", "kind": "hyp", "examples": 15000} for _ in range(3)]
         specs += [{"sub": "match", "kind": "sweep", "amax": 4, "rmax": 6, "rates": [0, 0.26, 0.34, 0.5],
                    "part": i, "of": 32} for i in range(32)]
     if tier == "thorough":
